@@ -206,7 +206,10 @@ def r5(R, repo):
   ad = repo.mod(AD)
   gw = ad.func('_grad_general.grad_wrapper')
   c = cfg_of(gw)
-  ev = _call_nodes(c, gw, lambda x: astu.call_name(x) == 'process_out')
+  # "process_out" by role: any function of the module (nested or not) that returns extract.from_tree(..., is_inner=False)
+  mergers = {g_.name for g_ in ad.funcs.values() for r_ in astu.body_walk(g_.node) if isinstance(r_, ast.Return) and isinstance(r_.value, ast.Call) and astu.call_tail(r_.value) == 'from_tree'
+             and astu.is_const(astu.kwarg(r_.value, 'is_inner'), False)} | {'process_out'}
+  ev = _call_nodes(c, gw, lambda x: astu.call_name(x) in mergers)
   rets = _returns(c)
   R.require(len(rets) >= 1, 'grad_wrapper: return statements not found')
   _once(R, repo, c, gw, ev, rets, key_of(gw, 'process_out exactly once before every return'),
@@ -237,8 +240,15 @@ def r5(R, repo):
       else:
         R.fail(key, (gw, u), '`%s` is unpacked from the transformed function\'s result (`%s`) and never used on this branch: %s' % (
             nm, astu.short(u), 'the state the forward pass wrote into the arguments (counters, batch statistics, rng counts) is not copied back to the caller\'s objects' if 'args' in nm else 'that part of the result is dropped'))
-  po = ad.func('_grad_general.grad_wrapper.process_out')
-  R.check("return extract.from_tree(pure_out, ctxtag='grad', is_inner=False)" in astu.src(po.node), key_of(po, 'outer merge with the grad tag'), po, "process_out must be the outer from_tree(..., ctxtag='grad', is_inner=False)")
+  try:
+    po = ad.func('_grad_general.grad_wrapper.process_out')
+  except AnalysisError:
+    cands = [g_ for g_ in ad.funcs.values() if g_.name in mergers and g_.name != 'process_out']
+    if len(cands) != 1:
+      R.unsure(key_of(gw, 'outer merge with the grad tag'), gw, 'the function that merges the outputs back was not found')
+      return
+    po = cands[0]
+  R.check("return extract.from_tree(%s, ctxtag='grad', is_inner=False)" % (astu.params(po.node)[0] if astu.params(po.node) else 'pure_out') in astu.src(po.node) or "return extract.from_tree(pure_out, ctxtag='grad', is_inner=False)" in astu.src(po.node), key_of(po, 'outer merge with the grad tag'), po, "process_out must be the outer from_tree(..., ctxtag='grad', is_inner=False)")
 
 
 @rule('C08.R6', 'K1', 4, 'inconsistent carries, broadcast outputs and inconsistent aliasing are rejected before the transform runs')
